@@ -510,4 +510,60 @@ example : render ((holeEnv 1 true).expandAll rhoSample) op_Neo4jPropertyGraph_ad
     t!"CALL apoc.create.node([ 'GraphNode', 'NetworkNode' ], { Class: 'NetworkNode', GraphID: 'v', NodeID: 'v', Site: 'v' });" := by
   decide +kernel
 
+/-! ### histories of calls (round 7)
+
+`σ` stands for everything that can carry a stored value from one call to a later one: the database, results the caller kept, whatever
+a graph handle (or a class-level table) remembers.  A step issues the statement of one call site; `env` says - arbitrarily - what
+reaches the call's arguments in a given state, `next` how the call changes the state. -/
+structure Step (σ : Type) where
+  op : Op
+  env : σ → Env
+  next : σ → σ
+
+/-- the texts the driver receives over a history started in state `s` -/
+def runHist {σ : Type} : List (Step σ) → σ → List Text
+  | [], _ => []
+  | c :: rest, s => render (c.env s) c.op.tpl :: runHist rest (c.next s)
+
+/-- the state decides values only: names, identifiers and the shapes of the mappings of every call are the caller's -/
+def StateFeedsValuesOnly {σ : Type} (h : List (Step σ)) : Prop :=
+  ∀ c ∈ h, ∀ a b : σ, (c.env a).erase = (c.env b).erase
+
+/-- Over a whole history of value-free call sites the texts handed to the driver are the same from any two initial states, however
+stored values are routed from earlier calls into the value arguments of later ones (second-order flows included). -/
+theorem history_texts_independent_of_state {σ : Type} (h : List (Step σ))
+    (hvf : ∀ c ∈ h, valueFree c.op.tpl = true) (hid : StateFeedsValuesOnly h) (a b : σ) :
+    runHist h a = runHist h b := by
+  induction h generalizing a b with
+  | nil => rfl
+  | cons c rest ih =>
+    have h1 : render (c.env a) c.op.tpl = render (c.env b) c.op.tpl :=
+      no_value_piece_data_independent c.op.tpl (hvf c (List.mem_cons_self ..)) _ _ (hid c (List.mem_cons_self ..) a b)
+    have h2 : runHist rest (c.next a) = runHist rest (c.next b) :=
+      ih (fun c' hc' => hvf c' (List.mem_cons_of_mem _ hc')) (fun c' hc' => hid c' (List.mem_cons_of_mem _ hc')) _ _
+    simp only [runHist, h1, h2]
+
+/-- ... in particular for histories over the call sites of the library that are not listed as value-dependent -/
+theorem history_data_independent_except_listed {σ : Type} (h : List (Step σ))
+    (hops : ∀ c ∈ h, c.op ∈ ops ∧ c.op.key ∉ valueDependentKeys) (hid : StateFeedsValuesOnly h) (a b : σ) :
+    runHist h a = runHist h b :=
+  history_texts_independent_of_state h (fun c hc => value_free_except_listed c.op (hops c hc).1 (hops c hc).2) hid a b
+
+/-- non-vacuity: the state is the Class string a node holds; a read leaves it, the later write gets it as a VALUE argument -/
+def readThenWrite : List (Step Text) :=
+  [⟨op_Neo4jPropertyGraph_get_node_properties_s0_v0, fun _ => ⟨[], [(t!"node_id", t!"n1")], []⟩, id⟩,
+   ⟨op_Neo4jPropertyGraph_update_node_property_s0_v0, fun s => ⟨[(t!"prop_name", t!"Name")], [(t!"node_id", t!"n1"), (t!"prop_val", s)], []⟩, id⟩]
+example : StateFeedsValuesOnly readThenWrite := by
+  intro c hc a b
+  simp only [readThenWrite, List.mem_cons, List.mem_nil_iff, or_false] at hc
+  rcases hc with rfl | rfl <;> rfl
+example : runHist readThenWrite t!"NetworkNode" = runHist readThenWrite t!"x' }) DETACH DELETE s //" := by decide +kernel
+
+/-- the hypothesis is needed: a step that lets the state choose an IDENTIFIER (the form of a handle that pastes a remembered Class string
+behind `:GraphNode:`) issues different texts from different states -/
+def rememberedLabel : List (Step Text) :=
+  [⟨op_Neo4jPropertyGraph_get_all_nodes_by_class_s0_v0, fun s => ⟨[(t!"label", s)], [], []⟩, id⟩]
+theorem state_in_identifier_position_counterexample :
+    runHist rememberedLabel t!"NetworkNode" ≠ runHist rememberedLabel t!"x {GraphID: $x}) DETACH DELETE n //" := by decide +kernel
+
 end FimVerif.C19
